@@ -215,11 +215,11 @@ structure View where
 deriving Inhabited
 
 /-- `include_readouts=True`: `for name, ro in self._readouts.items(): ro.calculate_inpl(name, args)` on the
-    argument dict of one time point, in declaration order (a readout may use an earlier readout) -/
+    argument dict of one time point, in declaration order (a readout may use an earlier readout or a data set) -/
 def withReadouts (c : Content) (a : List (Name × Rat)) : Except Err (List (Name × Rat)) :=
-  c.readouts.foldlM (fun acc kf => do
-    let v ← kf.2.calc acc
-    pure ((kf.1, v) :: acc)) a
+  -- the shared core's readout pass: readouts are evaluated over `self._data | args` (after "fix: readouts can name data
+  -- sets"), the data sets themselves are not part of the returned table
+  evalReadouts c.readouts (a ++ c.data) a
 
 /-- one iteration of `_compute_args`: `model.update_parameters(p)` then
     `get_args_time_course(variables=res, ..., include_readouts=True)` -/
